@@ -95,7 +95,7 @@ def main(argv):
         desc = open(os.path.join(wt, "desc%s.txt" % k)).read() if os.path.exists(os.path.join(wt, "desc%s.txt" % k)) else ""
         meta = {
             "property": prop,
-            "source": "independent sub-agent given only the property text and a scratch worktree",
+            "source": os.environ.get("SEEDED_SOURCE", "independent sub-agent given only the property text and a scratch worktree"),
             "description_and_what_it_needs_to_manifest": desc.strip(),
             "confirmed": c,
             "what_was_run": "git apply in the scratch worktree; pytest (160 pass, tests/test_dotexport.py deselected: its 3 tests always fail here); demo.py with and without the change; ./check selftest-patch <patch> (scratch copy of /repo's anytree with the patch applied, all claimed checks, quick tier)",
